@@ -5,7 +5,7 @@ VERIF = os.path.dirname(os.path.dirname(os.path.abspath(__file__)))
 
 TRUST = ("Trusted base: Go 1.26.8 standard library (the shipped binary uses 1.23.12; GODEBUG defaults follow go.mod), "
          "testing/synctest fake clock + quiescence detection, simnet's model of TCP (in-memory, Linux-shaped errors), "
-         "the mechanical rewrites R1-R12 of DESIGN 3.1 (dial/listen seams, durable mutexes, preemption points, overlays of net/http and of the runtime: seeded order of same-instant timers and of select, no real-time preemption), scripted peers and independent parsers written from the RFCs. "
+         "the mechanical rewrites R1-R13 of DESIGN 3.1 (dial/listen seams, durable mutexes, preemption points, overlays of net/http and of the runtime: seeded order of same-instant timers and of select, no real-time preemption), scripted peers and independent parsers written from the RFCs. "
          "Seeded sampling of schedules/faults: a clean batch is evidence, not proof.")
 
 # id -> (level, text, design_ref, technique)
